@@ -1,5 +1,6 @@
 import Capella.Driver.Util
 import Capella.Model.Git
+import Capella.Model.GitPush
 /-! Protocol driver for the git-transaction model (C16): ops `git.run`, `git.objectlike`. -/
 namespace Capella.Driver.Git
 open Lean Capella.Driver Capella.Git
@@ -41,6 +42,7 @@ def cmdName : Cmd String → String
   | .add p => s!"add {p}" | .writeTree => "write-tree" | .catFile => "cat-file" | .commitTree => "commit-tree"
   | .resetSoft => "reset --soft" | .updateRef t => s!"update-ref {String.ofList t}" | .resetHard => "reset --hard"
   | .clean => "clean"
+  | .revParseTarget t => s!"rev-parse --verify --quiet {String.ofList t}" | .push t => s!"push {String.ofList t}"
 
 def sortPairs (l : List (String × Json)) : List (String × Json) :=
   (l.toArray.qsort (fun a b => a.1 < b.1)).toList
@@ -53,8 +55,13 @@ def commitJson (c : Commit String) : Json :=
   Json.arr #[(match c.parent with | some p => Json.num (p : Nat) | none => Json.null),
              treeJson (c.tree.map (·.1)).eraseDups c.tree.get]
 
-def stateJson (n0 : Nat) (univ : List String) (s : St String) (e : Option Err) : Json :=
+def refsJson (refs : List (Str × Nat)) : Json :=
+  Json.arr ((sortPairs (refs.map (fun r => (String.ofList r.1, Json.num (r.2 : Nat))))).map
+    (fun r => Json.arr #[Json.str r.1, r.2])).toArray
+
+def stateJson (n0 : Nat) (univ : List String) (s : St String) (e : Option Err) (rem : Option Remote := none) : Json :=
   Json.mkObj [
+    ("remote", match rem with | none => Json.null | some r => refsJson r),
     ("newcommits", Json.arr ((s.commits.drop n0).map commitJson).toArray),
     ("refs", Json.arr ((sortPairs (s.refs.map (fun r => (String.ofList r.1, Json.num (r.2 : Nat))))).map
       (fun r => Json.arr #[Json.str r.1, r.2])).toArray),
@@ -81,6 +88,11 @@ def handle (op : String) (j : Json) : Except String Json := do
     let refs ← refsJ.toList.mapM (fun (r : Json) => do
       let a ← r.getArr?
       pure ((← (a[0]!).getStr?).toList, ← (a[1]!).getNat?))
+    let remote0 : Option Remote := match st.getObjValAs? (Array Json) "remote" with
+      | .ok a => (a.toList.mapM (fun (r : Json) => do
+          let x ← r.getArr?
+          pure ((← (x[0]!).getStr?).toList, ← (x[1]!).getNat?))).toOption
+      | .error _ => none
     let head ← st.getObjValAs? Nat "head"
     let index ← parseTree (← st.getObjVal? "index")
     let files ← parseTree (← st.getObjVal? "files")
@@ -92,6 +104,7 @@ def handle (op : String) (j : Json) : Except String Json := do
                                files := Tree.get files, txnOpen := false, calls := 0, trace := [] }
     let mut univ : List String := ((files.map (·.1)) ++ (index.map (·.1))).eraseDups
     let mut outs : Array Json := #[]
+    let mut rem : Remote := remote0.getD []
     for t in txnsJ do
       let dry ← t.getObjValAs? Bool "dry"
       let ie ← t.getObjValAs? Bool "ignore_empty"
@@ -104,9 +117,14 @@ def handle (op : String) (j : Json) : Except String Json := do
         | .write p _ | .writeAbort p _ | .openOnly p _ | .writeIgnored p _ => univ := if p ∈ univ then univ else p :: univ
         | _ => pure ()
       let o : Opts := { dry := dry, ignoreEmpty := ie, remoteBranch := rb.map String.toList }
-      let r := transaction fault rev.toList o body s
-      s := r.1
-      outs := outs.push (stateJson commits.length univ s r.2)
+      let push := (t.getObjValAs? Bool "push").toOption.getD false
+      let declines := (t.getObjValAs? Bool "remote_declines").toOption.getD false
+      -- without a remote (`remote0 = none`) every push is declined: there is no `origin`
+      let po : PushOpts := { push := push, declines := declines || remote0.isNone }
+      let r := transactionPush fault rev.toList o po body s rem
+      s := r.1.1
+      rem := r.2
+      outs := outs.push (stateJson commits.length univ s r.1.2 (remote0.map (fun _ => rem)))
     pure (Json.arr outs)
   | _ => throw s!"unknown op {op}"
 
